@@ -18,6 +18,7 @@ type snapshot struct {
 	specDone map[string]bool
 	nObl     int
 	oblNames map[string]int
+	nFp      int
 }
 
 func copyB(m map[string]bool) map[string]bool {
@@ -29,7 +30,7 @@ func copyB(m map[string]bool) map[string]bool {
 }
 
 func (e *Enc) snap() *snapshot {
-	s := &snapshot{nDecl: len(e.decls), declared: copyB(e.declared), dtDone: copyB(e.dtDone), specDone: copyB(e.specDone), nObl: len(e.obls)}
+	s := &snapshot{nFp: len(e.fpFuns), nDecl: len(e.decls), declared: copyB(e.declared), dtDone: copyB(e.dtDone), specDone: copyB(e.specDone), nObl: len(e.obls)}
 	s.comps = make(map[string]Sort, len(e.comps))
 	for k, v := range e.comps {
 		s.comps[k] = v
@@ -43,6 +44,7 @@ func (e *Enc) snap() *snapshot {
 
 func (e *Enc) restore(s *snapshot) {
 	e.decls = e.decls[:s.nDecl]
+	e.fpFuns = e.fpFuns[:s.nFp]
 	e.declared = s.declared
 	e.comps = s.comps
 	e.dtDone = s.dtDone
@@ -271,7 +273,11 @@ func (fr *Frame) enterLoop(h *ssa.BasicBlock, li *loopInfo, stE *State, phiVal f
 		e.assume(st.pc, "(>= "+nx+" "+e.get(stE, "$next", "Int")+")")
 	}
 	for _, phi := range phis {
-		fr.havocVal(phi, st)
+		v := fr.havocVal(phi, st)
+		if phi.Comment == "rangeindex" {
+			// range loops over slices: the hidden index starts at -1 and only grows
+			e.assume(st.pc, "(and (>= "+v.T+" (- 1)) (<= "+v.T+" 17592186044416))")
+		}
 	}
 	if ls != nil {
 		fr.curBlock = h
@@ -619,8 +625,7 @@ func (fr *Frame) execValue(x ssa.Value, st *State) {
 		dom, val, cnt, ks, vs := e.mapComps(m)
 		ds, vsrt := "(Array Int (Array "+ks+" Bool))", "(Array Int (Array "+ks+" "+vs+"))"
 		e.set(st, dom, ds, sStore(e.get(st, dom, ds), r, "((as const (Array "+ks+" Bool)) false)"))
-		_ = val
-		_ = vsrt
+		e.set(st, val, vsrt, sStore(e.get(st, val, vsrt), r, "((as const (Array "+ks+" "+vs+")) "+e.zero(m.Elem())+")"))
 		e.set(st, cnt, "(Array Int Int)", sStore(e.get(st, cnt, "(Array Int Int)"), r, "0"))
 		fr.vals[v] = &Val{T: r, S: "Int", GoT: v.Type()}
 	case *ssa.MakeSlice:
@@ -662,9 +667,16 @@ func (fr *Frame) alloc(v *ssa.Alloc, st *State) {
 		e.localRefs[r] = true
 	}
 	val := &Val{T: r, S: "Int", GoT: v.Type()}
+	e.zeroGhost(st, el, r)
 	switch u := el.Underlying().(type) {
 	case *types.Struct:
 		val.Loc = &Loc{Kind: locStruct, Base: r, GoT: el}
+		for i := 0; i < u.NumFields(); i++ {
+			ft := u.Field(i).Type()
+			if _, isSt := ft.Underlying().(*types.Struct); isSt {
+				e.zeroGhost(st, ft, "("+e.fpFun(typeKey(e.g, el), u.Field(i).Name())+" "+r+")")
+			}
+		}
 		if !e.isOpaqueStruct(el) {
 			for i := 0; i < u.NumFields(); i++ {
 				c, cs, ft := e.fieldComp(el, i)
@@ -732,7 +744,7 @@ func (fr *Frame) indexAddr(v *ssa.IndexAddr, st *State) {
 		e.oblige("safety", "index in range: "+fr.srcText(v.Pos()), st.pc,
 			"(and (<= 0 "+idx.T+") (< "+idx.T+" (s-len "+x.T+")))", nil, v.Pos(), "")
 		c, es := e.elemComp(t.Elem())
-		base, off := "(s-arr "+x.T+")", "(+ (s-off "+x.T+") "+idx.T+")"
+		base, off := "(s-arr "+x.T+")", "(ix (s-off "+x.T+") "+idx.T+")"
 		fr.vals[v] = &Val{T: "(ep " + base + " " + off + ")", S: "Int", GoT: v.Type(),
 			Loc: &Loc{Kind: locElem, Comp: c, CS: es, Base: base, Idx: off, GoT: t.Elem()}}
 	case *types.Pointer:
@@ -922,8 +934,10 @@ func (fr *Frame) lookup(v *ssa.Lookup, st *State) {
 	has := sSel(sSel(e.get(st, dom, "(Array Int (Array "+ks+" Bool))"), x.T), k.T)
 	// nil map reads yield zero values
 	has = sAnd("(not (= "+x.T+" 0))", has)
+	// absent keys (and the nil map) read as the zero value: invariant of every Mv component
 	raw := sSel(sSel(e.get(st, val, "(Array Int (Array "+ks+" "+vs+"))"), x.T), k.T)
-	res := e.define(fr.name(v)+"_v", vs, sIte(has, raw, e.zero(m.Elem())))
+	res := e.define(fr.name(v)+"_v", vs, raw)
+	e.assume(st.pc, sImp(sNot(has), sEq(res, e.zero(m.Elem()))))
 	e.assume(st.pc, e.wf(m.Elem(), res, e.next(st)))
 	if v.CommaOk {
 		okc := e.define(fr.name(v)+"_ok", "Bool", has)
@@ -958,8 +972,11 @@ func (e *Enc) mapStore(st *State, m *types.Map, mt, kt, vt string) {
 }
 
 func (e *Enc) mapDelete(st *State, m *types.Map, mt, kt string) {
-	dom, _, cnt, ks, _ := e.mapComps(m)
+	dom, val, cnt, ks, vs := e.mapComps(m)
 	ds := "(Array Int (Array " + ks + " Bool))"
+	vsrt := "(Array Int (Array " + ks + " " + vs + "))"
+	vv := e.get(st, val, vsrt)
+	e.set(st, val, vsrt, sStore(vv, mt, sStore(sSel(vv, mt), kt, e.zero(m.Elem()))))
 	d := e.get(st, dom, ds)
 	had := sAnd("(not (= "+mt+" 0))", sSel(sSel(d, mt), kt))
 	c := e.get(st, cnt, "(Array Int Int)")
@@ -1365,9 +1382,13 @@ func (fr *Frame) frameCond(comp string, v string) (string, bool) {
 	}
 	cs := []string{"(< 0 " + v + ")", "(< " + v + " $next!0)"}
 	if strings.HasPrefix(comp, "G_") {
-		// ghost components may be keyed by interior pointers (negative terms): everything that is
-		// not a target must be unchanged
-		cs = nil
+		// ghost components may be keyed by interior pointers: everything that is neither a target, nor
+		// an object allocated after entry, nor an interior pointer of such an object must be unchanged
+		ex := []string{"(>= " + v + " $next!0)"}
+		for _, f := range fr.e.fpFuns {
+			ex = append(ex, "(and (= "+v+" ("+f+" ("+f+"_inv "+v+"))) (>= ("+f+"_inv "+v+") $next!0))")
+		}
+		cs = []string{sNot(sOr(ex...))}
 	}
 	for _, t := range fr.targets[comp] {
 		switch t.Kind {
@@ -1414,5 +1435,34 @@ func shlConst(v ssa.Value) (int, bool) {
 			}
 		}
 		return 0, false
+	}
+}
+
+// zeroGhost: a freshly allocated object has zero ghost state (no lock held, nothing written, ...).
+func (e *Enc) zeroGhost(st *State, t types.Type, ref string) {
+	key := typeKey(e.g, t)
+	var names []string
+	for k := range e.g.specs.Ghosts {
+		names = append(names, k)
+	}
+	sort.Strings(names)
+	for _, k := range names {
+		g := e.g.specs.Ghosts[k]
+		if g.Type != key {
+			continue
+		}
+		s := specSort(g.Sort)
+		var z string
+		switch s {
+		case "Int":
+			z = "0"
+		case "Bool":
+			z = "false"
+		default:
+			continue
+		}
+		comp := "G_" + san(key) + "_" + g.Name
+		srt := "(Array Int " + s + ")"
+		e.set(st, comp, srt, sStore(e.get(st, comp, srt), ref, z))
 	}
 }
